@@ -837,6 +837,305 @@ def oracle_feasm(case, out):
     return None
 
 
+
+# ---------------------------------------------------------------------------------------------
+# Burgers stream: classic BurgersAssembler vs. domain-assembler jobs, blocked and scalar matrices
+# ---------------------------------------------------------------------------------------------
+
+BG_SHAPES = {"quad": (2, "h", 4), "tria": (2, "s", 4), "hexa": (3, "h", 8)}   # dim, family, refinement factor
+
+
+def bg_ncells(shape, level):
+    base = {"quad": 1, "tria": 4, "hexa": 1}[shape]
+    return base * BG_SHAPES[shape][2] ** level
+
+
+def gen_bg_case(rng, tier):
+    shape = rng.choice(["quad", "quad", "quad", "tria", "tria", "hexa"])
+    dim, fam, _ = BG_SHAPES[shape]
+    space = "L1" if shape == "hexa" else rng.choice(["L1", "L1", "L2"])
+    mtype = rng.choice(["B", "B", "S"])
+    maxlev = {"quad": 2 if space == "L1" else 1, "tria": 1 if space == "L1" else 0, "hexa": 1}[shape]
+    level = rng.randint(0, maxlev)
+    if shape == "hexa" and tier == "quick" and rng.random() < 0.5:
+        level = 0
+    nc = bg_ncells(shape, level)
+    h = F(1, 2 ** level) if fam == "h" else F(1, 2 ** (level + 1))
+    moves = []
+    if rng.random() < 0.6:
+        for _ in range(rng.randint(1, 3)):
+            moves.append((rng.randrange(64), [F(rng.randint(-5, 5), 40) * h for _ in range(dim)]))
+    if fam == "h":
+        rule = rng.choice(["newton-cotes-closed:2", "newton-cotes-closed:3", "newton-cotes-closed:4"] +
+                          (["newton-cotes-closed:5"] if dim == 2 else []))
+    else:
+        rule = rng.choice(["lauffer-degree-2", "silvester-open:3", "silvester-open:4", "barycentre"])
+
+    def onoff(p, vals):
+        return rng.choice(vals) if rng.random() < p else F(0)
+    nu = onoff(0.6, [F(1), F(1, 2), F(1, 100), F(3)])
+    theta = onoff(0.4, [F(1), F(-1, 2), F(2)])
+    beta = onoff(0.6, [F(1), F(-1), F(1, 2)])
+    frechet = onoff(0.3, [F(1), F(1, 3)]) if mtype == "B" else F(0)   # not available for scalar matrices (XASSERT)
+    sd_delta = onoff(0.8, [F(1, 10), F(1, 4), F(1), F(-1, 2), F(3)])
+    sd_nu = rng.choice([F(1), F(1, 100), F(1, 2), F(5)])
+    deform = 1 if (rng.random() < 0.3 and mtype == "B") else 0   # scalar matrices: XASSERT
+    vmode = rng.choice([1, 1, 1, 2, 2, 0])
+    vnorm = rng.choice([F(1), F(2), F(1, 2), F(7, 3)])
+    deg = DEG[space]
+    fk = rng.choice([1, 2, 2, 3, 3, 3])
+    if fk == 1:
+        comps = [[rand_q(rng) if rng.random() < 0.8 else F(0)] + [F(0)] * (len(monomials(dim)) - 1) for _ in range(dim)]
+        ftxt = "1 " + " ".join(fmt_qlist(c) for c in comps)
+    elif fk == 2:
+        comps = [rand_poly_coefs(rng, dim, rng.randint(1, deg)) for _ in range(dim)]
+        ftxt = "2 " + " ".join(fmt_qlist(c) for c in comps)
+    else:
+        k = rng.randrange(nc)
+        if dim == 2:
+            m = rng.choice([[0, -1, 1, 0], [1, 0, 0, -1], [1, 0, 0, 1], None])
+        else:
+            m = rng.choice([[0, -1, 0, 1, 0, 0, 0, 0, 0], [1, 0, 0, 0, 1, 0, 0, 0, -2], None])
+        if m is None:
+            m = [rand_q(rng, small=True) for _ in range(dim * dim)]
+        ftxt = "3 %d %s" % (k, " ".join(fs(x) for x in m))
+    zero = []
+    if rng.random() < 0.4:
+        zero = [rng.randrange(nc) for _ in range(rng.randint(1, 3))]
+    order = list(range(nc))
+    rng.shuffle(order)
+    mv = " ".join("%d %s" % (i, " ".join(fs(x) for x in dl)) for i, dl in moves)
+    line = "bg %s %d %d %s %s %s %s %d %s %s %s %s %s %s %d %s %s %s %s" % (
+        shape, level, len(moves), mv, space, mtype, rule, deform, fs(nu), fs(theta), fs(beta), fs(frechet), fs(sd_delta),
+        fs(sd_nu), vmode, fs(vnorm), ftxt, fmt_list(zero), fmt_list(order))
+    return " ".join(line.split())
+
+
+def parse_bg_case(case):
+    c = Tk(case)
+    op, shape = c.tok(), c.tok()
+    dim, fam, _ = BG_SHAPES[shape]
+    level = c.nat()
+    nm = c.nat()
+    moves = [(c.nat(), [c.q() for _ in range(dim)]) for _ in range(nm)]
+    space, mtype, rule = c.tok(), c.tok(), c.tok()
+    deform = c.nat()
+    nu, theta, beta, frechet, sd_delta, sd_nu = [c.q() for _ in range(6)]
+    vmode = c.nat()
+    vnorm = c.q()
+    fk = c.nat()
+    fcell, fmat, comps = None, None, None
+    if fk == 3:
+        fcell = c.nat()
+        fmat = [c.q() for _ in range(dim * dim)]
+    else:
+        comps = [c.qlst() for _ in range(dim)]
+    zero, order = c.lst(), c.lst()
+    return dict(shape=shape, dim=dim, fam=fam, level=level, moves=moves, space=space, mtype=mtype, rule=rule,
+                deform=deform, nu=nu, theta=theta, beta=beta, frechet=frechet, sd_delta=sd_delta, sd_nu=sd_nu,
+                vmode=vmode, vnorm=vnorm, fk=fk, fcell=fcell, fmat=fmat, comps=comps, zero=zero, order=order, end=c.p)
+
+
+def parse_bg_out(out):
+    o = Tk(out)
+    o.expect("FE")
+    dim, nv = o.nat(), o.nat()
+    verts = [[o.q() for _ in range(dim)] for _ in range(nv)]
+    nc, nvpc = o.nat(), o.nat()
+    cells = [[o.nat() for _ in range(nvpc)] for _ in range(nc)]
+    o.expect("T")
+    nd, n = o.nat(), o.nat()
+    tm = [o.lst() for _ in range(n)]
+    o.expect("K")
+    bs = o.nat()
+    tol, sd_delta, sd_nu, vnorm = o.q(), o.q(), o.q(), o.q()
+    need = o.nat()
+    o.expect("P")
+    rp, ci = o.lst(), o.lst()
+    r = dict(dim=dim, verts=verts, cells=cells, nd=nd, tm=tm, bs=bs, tol=tol, sd_delta=sd_delta, sd_nu=sd_nu,
+             vnorm=vnorm, need=need, rp=rp, ci=ci)
+    for tag in ("A", "B", "S", "O"):
+        o.expect(tag)
+        r[tag] = o.qlst()
+    o.expect("C")
+    k = o.nat()
+    per = []
+    for _ in range(k):
+        v = [o.q() for _ in range(dim)]
+        nrm, width, delta = o.q(), o.q(), o.q()
+        d = o.qlst()
+        per.append((v, nrm, width, delta, d))
+    r["C"] = per
+    return r
+
+
+def q_sqrt(x):
+    """the deterministic rational square root of harness/common/exact_q.hpp"""
+    import math
+    n, d = x.numerator, x.denominator
+    return F(math.isqrt(n * d * 2 ** 80), d * 2 ** 40)
+
+
+def first_diff(a, b):
+    if len(a) != len(b):
+        return "length %d vs %d" % (len(a), len(b))
+    for k, (x, y) in enumerate(zip(a, b)):
+        if x != y:
+            return "value %d: %s vs %s" % (k, x, y)
+    return None
+
+
+def oracle_bg(case, out):
+    try:
+        g = parse_bg_case(case)
+        if is_abnormal(out):
+            return "Burgers assembly on a valid configuration ended with " + out
+        r = parse_bg_out(out)
+        dim, bs = r["dim"], r["bs"]
+        if not mesh_valid(dim, g["fam"], r["verts"], r["cells"]):
+            return None
+        # --- the routes
+        e = first_diff(r["A"], r["B"])
+        if e:
+            return "classic BurgersAssembler and the domain-assembler job give different matrices (%s)" % e
+        e = first_diff(r["B"], r["S"])
+        if e:
+            return "job on all cells differs from the sum of the one-cell assemblies: state leaks between cells (%s)" % e
+        e = first_diff(r["B"], r["O"])
+        if e:
+            return "the assembled matrix depends on the order of the cells (%s)" % e
+        # --- per-cell parameter and streamline-diffusion part
+        nc = len(r["cells"])
+        zero = set(z % nc for z in g["zero"])
+        if g["fk"] == 3:
+            ck = [sum(r["verts"][v][d] for v in r["cells"][g["fcell"] % nc]) / len(r["cells"][0]) for d in range(dim)]
+            comps = []
+            for a in range(dim):
+                co = [F(0)] * len(monomials(dim))
+                for b in range(dim):
+                    co[1 + b] = g["fmat"][a * dim + b]
+                    co[0] -= g["fmat"][a * dim + b] * ck[b]
+                comps.append(co)
+        else:
+            comps = g["comps"]
+        polys = [Poly.from_coefs(dim, c) for c in comps]
+        for cell, (v, nrm, width, delta, dmat) in enumerate(r["C"]):
+            cen = [sum(r["verts"][x][d] for x in r["cells"][cell]) / len(r["cells"][cell]) for d in range(dim)]
+            if cell in zero:
+                exp_v = [F(0)] * dim
+            elif not zero:
+                exp_v = []
+                for pl in polys:
+                    sv = F(0)
+                    for mon, cf in pl.t.items():
+                        w = cf
+                        for d in range(dim):
+                            w *= cen[d] ** mon[d]
+                        sv += w
+                    exp_v.append(sv)
+            else:
+                exp_v = None   # neighbour of a zeroed cell: the field is not a polynomial there
+            if not r["need"]:
+                # streamline diffusion off: the routes do not evaluate the barycentre velocity at all
+                if any(x != 0 for x in dmat):
+                    return "cell %d: streamline diffusion is switched off but the local matrix changes with sd_delta" % cell
+                continue
+            if exp_v is not None and v != exp_v:
+                return "cell %d: barycentre velocity %s, expected %s" % (cell, v, exp_v)
+            if nrm != q_sqrt(sum(x * x for x in v)):
+                return "cell %d: |v| is not the norm of the barycentre velocity" % cell
+            if r["need"] and nrm > r["tol"]:
+                re_ = nrm * width / r["sd_nu"]
+                exp_delta = r["sd_delta"] * (width / r["vnorm"]) * (2 * re_) / (1 + re_)
+            else:
+                exp_delta = F(0)
+            if r["need"] and delta != exp_delta:
+                return "cell %d: local_delta = %s, expected %s (|v_bary| = %s)" % (cell, delta, exp_delta, nrm)
+            nl = len(r["tm"][cell])
+            if len(dmat) != nl * nl * bs * bs:
+                return "cell %d: local matrix has wrong size" % cell
+            active = bool(r["need"]) and exp_delta > r["tol"]
+            if not active and any(x != 0 for x in dmat):
+                return "cell %d: non-zero streamline diffusion although delta_T = 0 (|v_bary| = %s, need_sd = %d)" % (
+                    cell, nrm, r["need"])
+
+            def dd(i, j, a, b):
+                return dmat[((i * nl + j) * bs + a) * bs + b]
+            for i in range(nl):
+                for a in range(bs):
+                    for b in range(bs):
+                        if sum(dd(i, j, a, b) for j in range(nl)) != 0:
+                            return "cell %d: streamline-diffusion part does not annihilate constants" % cell
+                        for j in range(nl):
+                            if dd(i, j, a, b) != dd(j, i, b, a):
+                                return "cell %d: streamline-diffusion part is not symmetric" % cell
+                            if a != b and dd(i, j, a, b) != 0:
+                                return "cell %d: streamline-diffusion part couples different components" % cell
+        # --- global identities of the assembled operator
+        rows = r["nd"]
+        rp, ci, a_ = r["rp"], r["ci"], r["A"]
+        frechet = g["frechet"] if g["mtype"] == "B" else F(0)
+
+        def blk(k, a, b):
+            return a_[(k * bs + a) * bs + b]
+        if g["theta"] == 0 and frechet == 0:
+            for i in range(rows):
+                for a in range(bs):
+                    for b in range(bs):
+                        if sum(blk(k, a, b) for k in range(rp[i], rp[i + 1])) != 0:
+                            return "row %d: the operator has constants in its kernel but A 1 != 0" % i
+        if g["beta"] == 0 and frechet == 0:
+            pos = {}
+            for i in range(rows):
+                for k in range(rp[i], rp[i + 1]):
+                    pos[(i, ci[k])] = k
+            for (i, j), k in pos.items():
+                k2 = pos.get((j, i))
+                for a in range(bs):
+                    for b in range(bs):
+                        if k2 is None or blk(k, a, b) != blk(k2, b, a):
+                            return "symmetric form (no convection) but the matrix is not symmetric at (%d,%d)" % (i, j)
+        return None
+    except (IndexError, ValueError, AssertionError, KeyError) as e:
+        return "unparsable implementation output (%s): %s" % (repr(e), out[:200])
+
+
+def bgsd_line(case, out):
+    if is_abnormal(out):
+        return None
+    g = parse_bg_case(case)
+    r = parse_bg_out(out)
+    cfg = " ".join(case.split()[1:g["end"]])
+    cells = " ".join("%s %s" % (fs(nrm), fs(width)) for (_, nrm, width, _, _) in r["C"])
+    return "bgsd %s REC %s %s %s %s %d %d %s" % (cfg, fs(r["tol"]), fs(r["sd_delta"]), fs(r["sd_nu"]), fs(r["vnorm"]),
+                                                 r["need"], len(r["C"]), cells)
+
+
+def oracle_bgsd(case, out):
+    if is_abnormal(out):
+        return "Burgers job task on a valid configuration ended with " + out
+    return None
+
+
+def describe_bg(case):
+    g = parse_bg_case(case)
+    terms = "".join(ch for ch, v in (("n", g["nu"]), ("t", g["theta"]), ("b", g["beta"]), ("f", g["frechet"]),
+                                     ("s", g["sd_delta"])) if v != 0)
+    return ["shape:" + g["shape"], "space:" + g["space"], "matrix:" + ("blocked" if g["mtype"] == "B" else "scalar"),
+            "terms:" + (terms or "-") + ("+deform" if g["deform"] else ""),
+            "field:" + {1: "constant", 2: "polynomial", 3: "stagnation-at-cell-centre"}[g["fk"]] +
+            ("+zero-cells" if g["zero"] else ""), "vnorm-mode:%d" % g["vmode"], "level:%d" % g["level"]]
+
+
+CORPUS_BG = [
+    # vortex centred in cell 0, SD on, blocked/scalar; the cell after a flow cell has delta_T = 0
+    "bg quad 1 0 L1 B newton-cotes-closed:3 0 1/1 1/2 1/1 0/1 1/10 1/1 1 0/1 3 0 0/1 -1/1 1/1 0/1 0 4 3 1 0 2",
+    "bg quad 1 0 L1 S newton-cotes-closed:3 0 1/1 0/1 1/1 0/1 1/10 1/1 2 2/1 3 2 0/1 -1/1 1/1 0/1 0 4 0 1 2 3",
+    "bg quad 1 0 L2 B newton-cotes-closed:4 1 1/2 0/1 1/1 1/3 1/4 1/100 1 0/1 3 3 1/1 0/1 0/1 -1/1 2 0 1 4 2 0 3 1",
+    "bg tria 0 0 L1 B lauffer-degree-2 0 0/1 0/1 0/1 0/1 1/1 1/1 1 0/1 3 1 0/1 -1/1 1/1 0/1 0 4 1 0 3 2",
+]
+
+
 CORPUS_SYNTH = [
     # F3 (open, c16-edge:F3): no cell has both a test and a trial dof -> entry-free matrix -> null row_ptr dereferenced
     "asm 2 1 3 1 1 0 0 1 0 0/1 0",
@@ -869,7 +1168,8 @@ def main(argv):
     lean = None if args.no_lean else vlib.lean_check(PROP, leanchecker=(args.tier == "thorough"))
     hdir = os.path.join(vlib.VERIF, "harness", "c16")
     binary, err = vlib.build_harness("c16", os.path.join(hdir, "main.cpp"),
-                                     extra_srcs=[os.path.join(hdir, "fe_%s.cpp" % s) for s in ("line", "quad", "tria", "hexa", "tetra")])
+                                     extra_srcs=[os.path.join(hdir, "fe_%s.cpp" % s) for s in ("line", "quad", "tria", "hexa", "tetra")] +
+                                     [os.path.join(hdir, "bg_%s.cpp" % s) for s in ("quad", "tria", "hexa")])
     if binary is None:
         v = [{"property": PROP, "kind": "harness-build-failure", "detail": err, "failing_input": None,
               "broken": "harness c16 does not compile against the current tree"}]
@@ -877,10 +1177,14 @@ def main(argv):
     quick = args.tier == "quick"
     if args.replay:
         rc = json.load(open(args.replay))["input"]
-        synth = [rc] if rc.split()[0] not in ("fe", "feasm") else []
+        synth = [rc] if rc.split()[0] not in ("fe", "feasm", "bg", "bgsd") else []
         fe = [rc] if rc.split()[0] == "fe" else []
         feasm_extra = [rc] if rc.split()[0] == "feasm" else []
+        bg = [rc] if rc.split()[0] == "bg" else []
+        bgsd_extra = [rc] if rc.split()[0] == "bgsd" else []
     else:
+        bg = CORPUS_BG + [gen_bg_case(rng, args.tier) for _ in range(400 if quick else 4000)]
+        bgsd_extra = []
         synth = CORPUS_SYNTH + gen_synth(rng, 6000 if quick else 60000)
         fe = CORPUS_FE + [gen_fe_case(rng, args.tier) for _ in range(500 if quick else 4000)]
         feasm_extra = []
@@ -898,6 +1202,18 @@ def main(argv):
                 feasm.append(l)
     except Exception as e:  # reported by the fe stream below
         vlib.log("pre-run failed: %s" % e)
+    bgsd = list(bgsd_extra)
+    try:
+        pre = vlib.run_lines([binary], bg, env=env)
+        for cse, out in zip(bg, pre):
+            try:
+                l = bgsd_line(cse, out)
+            except Exception:
+                l = None
+            if l is not None:
+                bgsd.append(l)
+    except Exception as e:  # reported by the burgers stream below
+        vlib.log("pre-run failed: %s" % e)
     streams = [
         vlib.Stream("scatter", synth, [binary], vlib.driver_cmd(PROP), oracle=oracle_synth, nontrivial=nontrivial_synth,
                     describe=describe_synth, signature=signature, env=env,
@@ -906,19 +1222,29 @@ def main(argv):
                     signature=signature, env=env),
         vlib.Stream("fe-model", feasm, [binary], vlib.driver_cmd(PROP), oracle=oracle_feasm,
                     nontrivial=lambda c: True, describe=lambda c: ["shape:" + c.split()[1]], signature=signature, env=env),
+        vlib.Stream("burgers", bg, [binary], None, oracle=oracle_bg,
+                    nontrivial=lambda c: parse_bg_case(c)["level"] >= 1 or parse_bg_case(c)["fam"] == "s",
+                    describe=describe_bg, signature=signature, env=env),
+        vlib.Stream("burgers-model", bgsd, [binary], vlib.driver_cmd(PROP), oracle=oracle_bgsd,
+                    nontrivial=lambda c: True, describe=lambda c: ["shape:" + c.split()[1]], signature=signature, env=env),
     ]
     rule = ("scatter: random CSR patterns (1..6 x 1..7, empty rows, unsorted rows, duplicate columns), 1..4 calls on one "
             "scatter object incl. stale-slot calls, banded square and rectangular matrices (scatter and gather), dense vectors, symbolic+numeric assembly from "
             "random DOF tables (repeated dofs, empty cells, unused dofs, shuffled / repeated cell order); non-trivial = "
             ">= 2 cells (asm) or a non-empty call. fe: line/quad/tria/hexa/tetra unit-cube meshes, levels 0..3, interior "
             "vertices moved (non-affine quads/hexas), spaces L1/L2/P0dc/CR-RT and pairs, identity/Laplace/test-derivative/"
-            "force, rational cubature rules of sufficient and insufficient degree; non-trivial = >= 2 cells or moved vertex")
+            "force, rational cubature rules of sufficient and insufficient degree; non-trivial = >= 2 cells or moved vertex. "
+            "burgers: classic BurgersAssembler vs BurgersBlocked/ScalarMatrixAssemblyJob (all cells, sum of one-cell runs, "
+            "permuted cell order, per-cell local_delta and SD part) on quad/tria/hexa, L1/L2, BCSR<dim,dim> and scalar CSR, "
+            "all term combinations, constant / polynomial / stagnation-at-a-cell-centre fields, fields zeroed on whole "
+            "cells; burgers-model: the task's local_delta sequence vs the Lean model; non-trivial = >= 2 cells")
     rc = vlib.run_pipeline(PROP, args.tier, args.seed, lean, streams, t0, assumptions=[
         "Index modelled as unbounded Nat (no 64-bit overflow at the sizes FEAT can allocate)",
         "reading a never written _col_ptr slot (coupling outside the pattern, first touch) is undefined behaviour: "
         "modelled as failure, not generated",
         "exactness of a cubature rule at Q means rational points and weights: Newton-Cotes, Lauffer, trapezoidal, "
         "barycentre rules (Gauss rules are stored as rounded doubles and are not exact at Q)",
-        "voxel assemblers (double only) and blocked value types are not covered"],
+        "voxel assemblers (double only) are not covered; blocked value types only through the Burgers routes",
+        "sqrt at Q is the deterministic rational q_sqrt of exact_q.hpp on every route (Burgers |v|, directed mesh width)"],
         extra_cov={"rule": rule})
     return rc
